@@ -276,8 +276,9 @@ class World:
     k = self.kin()
     r = np.linalg.norm(p - k['X'][body])
     w = np.linalg.norm(k['W'][body])
-    return (np.linalg.norm(k['A'][body]) + np.linalg.norm(k['AL'][body]) * r + w * w * r + np.linalg.norm(self.gravity)
-            + (np.linalg.norm(k['V'][body]) + w * r) * (1 + w))
+    wmax = float(np.max(np.linalg.norm(k['W'], axis=1)))      # joint rates up the chain enter d/dt(J) qvel
+    return (np.linalg.norm(k['A'][body]) + np.linalg.norm(k['AL'][body]) * (1 + r) + w * w * (1 + r)
+            + np.linalg.norm(self.gravity) + (np.linalg.norm(k['V'][body]) + w * r + wmax) * (1 + wmax))
 
   # ---- contacts
   def contacts(self):
